@@ -47,6 +47,15 @@ func (t *Telnet) handleControlCharResponse(ctrlBuf []byte, c byte) ([]byte, erro
 		}
 	} else if len(ctrlBuf) == 1 && util.ByteIsAny(c, []byte{do, dont, will, wont}) {
 		ctrlBuf = append(ctrlBuf, c)
+	} else if len(ctrlBuf) == 1 {
+		// not an option negotiation: either an escaped iac (iac iac), which is a literal 0xff data
+		// byte, or a two byte command (nop, go ahead, ...) that needs no answer. either way the
+		// sequence is complete -- reset the control buffer or everything after it is swallowed.
+		if c == iac {
+			t.initialBuf = append(t.initialBuf, c)
+		}
+
+		ctrlBuf = make([]byte, 0)
 	} else if len(ctrlBuf) == 2 { //nolint:mnd
 		cmd := ctrlBuf[1:2][0]
 		ctrlBuf = make([]byte, 0)
